@@ -63,6 +63,7 @@ def run(ctx):
         ctx.run_rule("R5-write-intent", r5_intent, F)
         from rules import c11
         ctx.run_rule("R6-copy-up-fidelity", c11.r3_copy_up, F)
+        ctx.run_rule("R4-marker-agreement", c11.r4_markers, F)       # what set_opaque / create_whiteout write is what the union rules read back
         ctx.run_rule("R8-forwarding", r8_forwarding, F)
         ctx.run_rule("R6-live-tree", c11.r6_live_tree, F)            # the visible tree follows each operation
         ctx.run_rule("R7-preconditions", c11.r7_preconditions, F)    # each modifying step runs exactly when its precondition holds
